@@ -362,6 +362,7 @@ func guardedByCallerStore(p *Prog, prm *ssa.Parameter, field int, depth int) str
 // preceded (dominated) by Start/Run/Output/CombinedOutput on the same Cmd, or happen in another goroutine.
 func runC01Pipe(c *Ctx) {
 	n := 0
+	badFns := map[*ssa.Function]bool{}
 	for _, fn := range c.P.Funcs {
 		eachInstr(fn, func(b *ssa.BasicBlock, idx int, in ssa.Instruction) {
 			call, ok := in.(*ssa.Call)
@@ -435,16 +436,26 @@ func runC01Pipe(c *Ctx) {
 			}
 			walk(pipe, 0)
 			if badUse != "" {
+				badFns[fn] = true
 				c.bad(construct, call.Pos(), "write to the stdin pipe ("+badUse+") is not preceded by Start/Run/Output on the same Cmd in this goroutine: it blocks once the pipe buffer is full because the child does not exist yet")
 				return
 			}
 			c.ok(construct, call.Pos(), "every use of the pipe is dominated by the start of the process")
 		})
-		// exec.Command sites without StdinPipe are obligations too (instance count)
+		// an exec.Command site is discharged by what was found about the pipes of its function: none taken, or every use of
+		// them after the start. When a pipe of the function is reported, the site is not counted as evidence.
+		if badFns[fn] {
+			continue
+		}
+		pipes := len(findCalls(fn, "(*os/exec.Cmd).StdinPipe"))
 		eachInstr(fn, func(_ *ssa.BasicBlock, _ int, in ssa.Instruction) {
 			if call, ok := in.(*ssa.Call); ok {
 				if nm := calleeFullName(&call.Call); nm == "os/exec.Command" || nm == "os/exec.CommandContext" {
-					c.ok(FuncName(fn)+"|"+nm, call.Pos(), "exec.Cmd creation site examined")
+					if pipes == 0 {
+						c.ok(FuncName(fn)+"|"+nm, call.Pos(), "no stdin pipe is taken from a Cmd in this function")
+					} else {
+						c.ok(FuncName(fn)+"|"+nm, call.Pos(), fmt.Sprintf("%d stdin pipe(s) taken in this function, each used only after the start of the process", pipes))
+					}
 				}
 			}
 		})
@@ -468,7 +479,9 @@ func runC01Exit(c *Ctx) {
 			}
 		})
 	}
-	c.ok("package|no process termination", token.NoPos, fmt.Sprintf("%d functions scanned for os.Exit/log.Fatal*/runtime.Goexit", len(p.Funcs)))
+	if found == 0 {
+		c.ok("package|no process termination", token.NoPos, fmt.Sprintf("%d functions scanned for os.Exit/log.Fatal*/runtime.Goexit", len(p.Funcs)))
+	}
 	// (2) (*Command).Main: the return reached when runLinter's error is non-nil is the constant 3
 	main := p.Method("Command", "Main")
 	if main == nil {
@@ -561,13 +574,21 @@ func returnsFrom(b *ssa.BasicBlock) []*ssa.Return {
 
 // ---- C01.UNSAFE ----
 func runC01Unsafe(c *Ctx) {
+	found := 0
 	for _, f := range c.P.Main.Syntax {
 		for _, imp := range f.Imports {
 			path := strings.Trim(imp.Path.Value, `"`)
-			if path == "unsafe" || path == "C" {
+			switch path {
+			case "unsafe", "C":
+				found++
 				c.bad("import "+path, imp.Pos(), "the call-graph and ownership arguments assume no unsafe/cgo")
+			case "reflect":
+				found++
+				c.bad("import "+path, imp.Pos(), "the call-graph and ownership arguments assume that no function is called and no field is written through reflection")
 			}
 		}
 	}
-	c.ok("package|imports", token.NoPos, fmt.Sprintf("%d files: no unsafe or cgo import", len(c.P.Main.Syntax)))
+	if found == 0 {
+		c.ok("package|imports", token.NoPos, fmt.Sprintf("%d files: no unsafe, reflect or cgo import", len(c.P.Main.Syntax)))
+	}
 }
